@@ -686,6 +686,17 @@ peek(int kind)
 	return false;
 }
 
+/* make t the current token again; the present current token is read next */
+void
+unget(struct token *t)
+{
+	static struct token pending;
+
+	pending = tok;
+	tok = *t;
+	ctxpush(&pending, 1, NULL, pending.space);
+}
+
 char *
 expect(enum tokenkind kind, const char *msg)
 {
